@@ -323,10 +323,12 @@ def run(ctx):
     ctx.trusted += [
         "ANTLR runtime + generated dae_config lexer/parser: modelled from the serialized ATN (grammar rules, longest match, first rule on ties, the non-greedy string/comment rules); tied differentially on every run, not proved",
         "lexer character classes are PROBED from the real lexer at run time (table line `classes …`; the driver checks Classes.wfCheck on it), non-ASCII code points probed to have no class",
-        "Go's []rune(string) decoding of the input text (invalid UTF-8 → U+FFFD) happens before the model sees the text",
-        "common.FuzzyDecode / netip.ParseAddrPort / IsValidHttpMethod on single values are oracles (answers computed by the real functions, passed to the model per op); the struct schema is probed by reflection from config.Config",
-        "filepath.Glob and the file system are an oracle (FS description + glob answers passed to the model); symlinks are outside the model (the real check is lexical too)",
-        "value parsers of rule compilation (IP, port, MAC, regex …) are not modelled: the size stream uses well-formed values, the pipeline stream only checks absence of panics",
+        "texts go through the tie as their ORIGINAL bytes; text that is not valid UTF-8 is rejected by the model (as by Parse since 9884639)",
+        "time.ParseDuration and netip.ParseAddrPort on single values are oracles (answers computed by the real functions, passed to the model per op); strings, bools, integers and IsValidHttpMethod are specified in the model; the struct schema is probed by reflection from config.Config and compared with the golden table harness/golden/c17_schema.json",
+        "filepath.Glob is an oracle (real answers for the patterns the model is expected to compute, entry directory quoted); the file system is described to the model (files, directories, final-component symbolic links, working directory); directory symlinks are not generated",
+        "real opens are observed with inotify (IN_OPEN) on the temp tree, its parent and one unrelated directory: opens elsewhere are not observable; the opened set of the real code must be a subset of the model's",
+        "value parsers of rule compilation (IP, port, MAC, regex, geodata …) are not modelled: the size stream uses well-formed values, the pipeline stream only checks absence of panics",
+        "cmd.readConfig is compared with the composition of the two real stages Merger.Merge ; config.New (each tied to the model), not with the model directly",
     ]
     sem = threading.Semaphore(MAX_PROCS)
     drv_ready = threading.Event()
